@@ -24,8 +24,9 @@ INV = [
     ("msg-val", "implies(hasfield(self, 'outbound_message'), self.outbound_message == spec.enc(self.params.group, spec.msg_elem(self, self.xy_scalar)))"),
     ("restored-started", "implies(spec.entropy_forbidden(self.entropy_f), self._started)"),
 ]
+INV_TAGS = "C01 C03 C04 C06 C07 C08 C16"
 for n, e in INV:
-    REG.class_invariant(BASE, e, name=n, tags="C07 C08")
+    REG.class_invariant(BASE, e, name=n, tags=INV_TAGS)
 
 vc.INLINE_OK |= {
     "spake2._SPAKE2_Base.compute_outbound_message", "spake2._SPAKE2_Base.hash_params",
@@ -73,8 +74,8 @@ for K in ("SPAKE2_A", "SPAKE2_B", "SPAKE2_Symmetric"):
     c.params(self="obj:" + Q).returns("bytes")
     c.writes("self._started", "self.xy_scalar", "self.xy_elem", "self.outbound_message")
     c.raises("OnlyCallStartOnce", "old(self._started)", name="once", tags="C07")
-    c.ensures("result == spec.cat(spec.side(self), spec.enc(%s, spec.msg_elem(self, self.xy_scalar)))" % G, name="msg", tags="C03 C01 C04 C06")
-    c.ensures("self.xy_scalar == spec.rs(%s, self.entropy_f, 0)" % G, name="scalar-from-entropy", tags="C11 C03 C04")
+    c.ensures("result == spec.cat(spec.side(self), spec.enc(%s, spec.msg_elem(self, self.xy_scalar)))" % G, name="msg", tags="C03 C01 C04 C06 C16")
+    c.ensures("self.xy_scalar == spec.rs(%s, self.entropy_f, 0)" % G, name="scalar-from-entropy", tags="C11 C03 C04 C16")
     c.ensures("0 <= self.xy_scalar and self.xy_scalar < spec.gq(%s)" % G, name="scalar-range", tags="C04 C11 C01")
     c.ensures("len(result) == 1 + spec.esize(%s)" % G, name="len", tags="C03")
     c.ensures("spec.entropy_calls() == 1 and spec.entropy_only_via('GroupSpec.random_scalar')", name="entropy", tags="C11")
@@ -84,7 +85,7 @@ for K in ("SPAKE2_A", "SPAKE2_B", "SPAKE2_Symmetric"):
     for n, e in MONO:
         c.ensures(e, name=n, tags="C07", on="both")
     for n, e in INV:
-        c.ensures(e, name="inv:" + n, tags="C07 C08", on="both")
+        c.ensures(e, name="inv:" + n, tags=INV_TAGS, on="both")
     c.canary("result == spec.cat(spec.side(self), spec.enc(%s, spec.gmul(%s, self.xy_scalar, spec.G(%s))))" % (G, G, G))
 
     # ---------------- finish() ----------------
@@ -102,7 +103,7 @@ for K in ("SPAKE2_A", "SPAKE2_B", "SPAKE2_Symmetric"):
     c.raises("Exception", "not old(self._finished) and (%s) and not spec.decodable(%s, m[1:])" % (side_ok, G), name="undecodable", tags="C05 C02")
     c.raises("AttributeError", "not old(self._finished) and (%s) and spec.decodable(%s, m[1:]) and not old(hasfield(self, 'outbound_message'))" % (side_ok, G), name="not-started", tags="C07")
     c.raises("ReflectionThwarted", "not old(self._finished) and (%s) and spec.decodable(%s, m[1:]) and old(hasfield(self, 'outbound_message')) and m[1:] == old(self.outbound_message)" % (side_ok, G), name="reflection", tags="C06")
-    c.ensures("result == spec.session_key(self, m[1:])", name="key", tags="C03 C01 C02")
+    c.ensures("result == spec.session_key(self, m[1:])", name="key", tags="C03 C01 C02 C16")
     c.ensures("len(result) == 32", name="len", tags="C01")
     c.ensures("spec.entropy_calls() == 0", name="no-entropy", tags="C11", on="both")
     c.ensures("implies(not old(self._finished), self._finished)", name="finished", tags="C07", on="both")
@@ -110,7 +111,7 @@ for K in ("SPAKE2_A", "SPAKE2_B", "SPAKE2_Symmetric"):
     for n, e in MONO:
         c.ensures(e, name=n, tags="C07", on="both")
     for n, e in INV:
-        c.ensures(e, name="inv:" + n, tags="C07 C08", on="both")
+        c.ensures(e, name="inv:" + n, tags=INV_TAGS, on="both")
     c.canary("len(result) == 33")
 
     # ---------------- serialize() ----------------
@@ -134,14 +135,14 @@ for K in ("SPAKE2_A", "SPAKE2_B", "SPAKE2_Symmetric"):
         ids = [("idA", "idA"), ("idB", "idB")]
     c.returns("none")
     c.setup("fresh_self")
-    c.ensures("self.pw == password and self.params is params and self.entropy_f is entropy_f", name="fields", tags="C16 C01")
+    c.ensures("self.pw == password and self.params is params and self.entropy_f is entropy_f", name="fields", tags="C16 C01 C02 C03 C04")
     for f, a in ids:
-        c.ensures("self.%s == %s" % (f, a), name="id-" + f, tags="C16 C01 C08")
+        c.ensures("self.%s == %s" % (f, a), name="id-" + f, tags="C16 C01 C02 C03 C08")
     c.ensures("not self._started and not self._finished", name="fresh-flags", tags="C07")
     c.ensures("not hasfield(self, 'xy_scalar') and not hasfield(self, 'outbound_message') and not hasfield(self, 'xy_elem')", name="no-secret-yet", tags="C07 C11")
     c.ensures("spec.entropy_calls() == 0", name="no-entropy", tags="C11", on="both")
     for n, e in INV:
-        c.ensures(e, name="inv:" + n, tags="C07 C08")
+        c.ensures(e, name="inv:" + n, tags=INV_TAGS)
 
     # ---------------- from_serialized() ----------------
     c = REG.contract(Q + ".from_serialized")
@@ -165,17 +166,17 @@ for K in ("SPAKE2_A", "SPAKE2_B", "SPAKE2_Symmetric"):
         c.raises("WrongSideSerialized", "%s and not (%s)" % (own_keys, side_ok), name="wrong-side", tags="C09")
     fp_ok = "d['hashed_params'] == spec.fingerprint(klass, params)"
     c.raises("WrongGroupError", "%s and (%s) and not (%s)" % (own_keys, side_ok, fp_ok), name="wrong-params", tags="C09")
-    c.raises("Exception", "%s and (%s) and (%s) and not spec.b2s_ok(g, spec.unhex(d['xy_scalar']))" % (own_keys, side_ok, fp_ok), name="bad-scalar", tags="C10")
-    c.ensures("result.pw == spec.unhex(d['password'])", name="pw", tags="C08 C10")
+    c.raises("Exception", "%s and (%s) and (%s) and not spec.b2s_ok(g, spec.unhex(d['xy_scalar']))" % (own_keys, side_ok, fp_ok), name="bad-scalar", tags="C10 C08 C01")
+    c.ensures("result.pw == spec.unhex(d['password'])", name="pw", tags="C08 C10 C01 C03")
     if role == "S":
-        c.ensures("result.idSymmetric == spec.unhex(d['idS'])", name="ids", tags="C08 C10")
+        c.ensures("result.idSymmetric == spec.unhex(d['idS'])", name="ids", tags="C08 C10 C01 C02 C03")
     else:
-        c.ensures("result.idA == spec.unhex(d['idA']) and result.idB == spec.unhex(d['idB'])", name="ids", tags="C08 C10")
-    c.ensures("result.params is params", name="params", tags="C08 C09")
+        c.ensures("result.idA == spec.unhex(d['idA']) and result.idB == spec.unhex(d['idB'])", name="ids", tags="C08 C10 C01 C02 C03")
+    c.ensures("result.params is params", name="params", tags="C08 C09 C01 C03")
     c.ensures("result._started and not result._finished", name="flags", tags="C07 C08")
     c.ensures("hasfield(result, 'xy_scalar') and hasfield(result, 'xy_elem') and hasfield(result, 'outbound_message') and not hasfield(result, 'inbound_message')", name="fields-set", tags="C08 C07")
-    c.ensures("result.xy_scalar == spec.b2s(g, spec.unhex(d['xy_scalar']))", name="scalar", tags="C08 C10")
-    c.ensures("result.outbound_message == spec.enc(g, spec.msg_elem(result, result.xy_scalar))", name="msg", tags="C08 C09 C06")
+    c.ensures("result.xy_scalar == spec.b2s(g, spec.unhex(d['xy_scalar']))", name="scalar", tags="C08 C10 C01 C03")
+    c.ensures("result.outbound_message == spec.enc(g, spec.msg_elem(result, result.xy_scalar))", name="msg", tags="C08 C09 C06 C01 C03")
     c.ensures("spec.entropy_forbidden(result.entropy_f)", name="no-entropy-source", tags="C11 C07")
     c.ensures("spec.entropy_calls() == 0", name="no-entropy", tags="C11", on="both")
     c.ensures("classof(result) == '%s'" % K, name="class", tags="C09")
